@@ -200,11 +200,16 @@ PROPS["C16"] = dict(
     explanation="Allocator.getPartitionsNodeIds over a real cluster.Conn address book; assertions on every list; cover: some shuffle outcome gives two partitions different replica sets",
     runs={
         "quick": [dict(pkg="./storage", entry="VerifC16", bounds="maxn=3,maxr=3,maxp=2", reach=["placed"],
-                       cover=["two-partitions-can-get-different-replica-sets", "two-partitions-can-get-the-same-replica-set"])],
+                       cover=["two-partitions-can-get-different-replica-sets", "two-partitions-can-get-the-same-replica-set"]),
+                  # a large cluster (more members than a machine word has bits): only the first two draws are path decisions
+                  dict(pkg="./storage", entry="VerifC16Large", bounds="n=70,r=3,draws=2", unwind=200, reach=["placed"])],
         "thorough": [dict(pkg="./storage", entry="VerifC16", bounds="maxn=4,maxr=3,maxp=3,maporder=1", reach=["placed"],
-                          cover=["two-partitions-can-get-different-replica-sets", "two-partitions-can-get-the-same-replica-set"])],
+                          cover=["two-partitions-can-get-different-replica-sets", "two-partitions-can-get-the-same-replica-set"]),
+                     dict(pkg="./storage", entry="VerifC16Large", bounds="n=130,r=3,draws=2", unwind=400, reach=["placed"]),
+                     dict(pkg="./storage", entry="VerifC16Large", bounds="n=70,r=100,draws=2", unwind=4000, reach=["placed"])],
     },
-    outside="N>4, R>3, P>3; the distribution of placements (only possibility of difference is decided, not uniformity); embedding of the placement in the create-dataset proposal is covered by the C12/C14 harnesses",
+    replay_attempts=3000,
+    outside="every N,R,P only for N<=4, R<=3, P<=3; for N=70 (130) one partition and only the first two draws of the shuffle as decisions, the rest of the permutation fixed; the distribution of placements (only possibility of difference is decided, not uniformity); embedding of the placement in the create-dataset proposal is covered by the C12/C14 harnesses",
     assumptions=COMMON_ASSUME + ["math/rand.Shuffle is replaced by a Fisher-Yates stub whose every choice is a path decision"],
 )
 
@@ -434,6 +439,8 @@ PROPS["C03"] = dict(
             # a whole real Server (catalogue group + partition group over the real etcd/raft, one store) killed at any durable write
             # while items are inserted / removed, restarted on the same directory: exactly the acknowledged items
             dict(pkg=".", entry="VerifC14Crash", bounds="members=1,creates=1,deletes=0,items=3,maxflush=34,compactitems=1", unwind=4000, no_native=True, reach=["written", "restarted", "items-checked", "end"]),
+            # the same with two Servers and a two-replica partition group the allocator loads on both: either member killed, both must hold exactly the acknowledged items
+            dict(pkg=".", entry="VerifC14Crash", bounds="members=2,creates=1,deletes=0,items=2,maxflush=24", unwind=4000, no_native=True, reach=["written", "restarted", "items-checked", "end"]),
         ],
         "thorough": [
             dict(pkg="./storage/raft", entry="VerifC03", bounds="readys=1,maxmessages=1,msgtypes=2", reach=["readys-handled", "end"]),
@@ -446,6 +453,7 @@ PROPS["C03"] = dict(
             dict(pkg="./storage", entry="VerifC03Cluster", bounds="ops=2,ids=2,faults=1", unwind=4000, no_native=True, max_seconds=5400, reach=["written", "end"]),
             dict(pkg="./storage", entry="VerifC03Cluster", bounds="ops=3,ids=1,crashes=1,maxflush=8", unwind=4000, no_native=True, max_seconds=5400, reach=["written", "restarted", "end"]),
             dict(pkg=".", entry="VerifC14Crash", bounds="members=1,creates=2,deletes=1,items=4,maxflush=48,compactitems=1", unwind=4000, no_native=True, max_seconds=5400, reach=["written", "restarted", "items-checked", "end"]),
+            dict(pkg=".", entry="VerifC14Crash", bounds="members=2,creates=1,deletes=0,items=3,maxflush=40,compactitems=1", unwind=4000, no_native=True, max_seconds=5400, reach=["written", "restarted", "items-checked", "end"]),
         ],
     },
     outside="more than 3 replicas / 3 writes; more than one crashed replica (a minority of 3), crash instants other than the durable-write boundaries of the crashed replica's store; one partition, one message fault; batch writes in the cluster harness; goroutine schedules other than the deterministic one between harness-driven ticks; Badger's own durability (the API-level model makes a flushed batch durable atomically); more than 2 Readys in the Ready-shape harness",
